@@ -143,6 +143,12 @@ def run(ctx):
         cnt = [n for (lv, r, n) in asg if lv.endswith('->blockcount')]
         smp = [n for (lv, r, n) in asg if lv.endswith('->samplecount')]
         oko = bool(decs) and bool(cnt) and bool(smp) and all(any(g.cfg.dominates(c, d) for c in cnt) for d in decs) and all(any(g.cfg.dominates(d, s_) for d in decs) for s_ in smp)
+        # the block that is positioned to is the block the counter is set to: when the counter takes one of the quotient variables (per-channel layouts have two,
+        # the block index and the block index times the channel count), every block-addressed seek uses that same variable
+        cq = {r for (lv, r, n) in asg if lv.endswith('->blockcount') and r in qv}
+        if cq and blockseeks:
+            oks = oks and all(any(('(%s * ' % q) in s_ or ('%s * ' % q) in s_.replace('(long)', '').replace('(sf_count_t)', '') for q in cq) and
+                              not any(('(%s * ' % q2) in s_ for q2 in qv if q2 not in cq and not any(q2 in q for q in cq)) for s_ in blockseeks)
         ok = okq and oks and oko
         ctx.ob('BLOCK-SEEK', name, ok, g.loc(g.body), 'quotient/remainder %s; block byte offset %s %s; counter-decode-position order %s' % (
             'by ' + spb if okq else 'NOT by the same %s' % spb, 'ok' if oks else 'WRONG', blockseeks, 'ok' if oko else 'WRONG'), None)
